@@ -60,10 +60,10 @@ type Unit struct {
 	Ensures     []Clause
 	Modifies    []string // raw items; nil = inferred; "nothing"
 	HasMod      bool
-	ModInferred bool     // modifies = the inferred write set of the body, plus the listed items
-	Excludes    []string // type names / "globals": the inferred write footprint of the function contains no field of them
-	Lemmas      []Clause // closed formulas proved on their own (class "lemma"), e.g. injectivity of a cache key
-	Preserves   []string // type names: no field of any pre-existing object of these struct types changes
+	ModInferred bool        // modifies = the inferred write set of the body, plus the listed items
+	Excludes    []string    // type names / "globals": the inferred write footprint of the function contains no field of them
+	Lemmas      []Clause    // closed formulas proved on their own (class "lemma"), e.g. injectivity of a cache key
+	Preserves   []string    // type names: no field of any pre-existing object of these struct types changes
 	Guards      []GuardSpec // guards T.f by EXPR(self): every access to field f of a T in the body happens while EXPR holds
 	Ats         []AtSpec
 	MemoClass   string     // memoize CLASS: value class of the build-cache keys made in this function (C13)
